@@ -16,8 +16,8 @@ func jsonMarshal(v any) ([]byte, error)    { return json.Marshal(v) }
 // See /verif/DESIGN.md section 3.
 var properties = map[string]*Property{
 	"C01": {
-		Rules:      []string{"R-HINT", "R-CTXTYPE", "R-TABLES"},
-		Decided:    "the advisory size hint cannot steer which data is encoded (non-interference: hint-derived values reach no branch, loop bound, index or slice bound of the Writer data path); every context key is stored with the type every consumer asserts (no configuration accepted at construction can fail a type assertion at the first block); every codec name accepted at construction has a constructor case in every factory.",
+		Rules:      []string{"R-HINT", "R-CTXTYPE", "R-TABLES", "R-CTX-MIRROR"},
+		Decided:    "the advisory size hint cannot steer which data is encoded (non-interference: hint-derived values reach no branch, loop bound, index or slice bound of the Writer data path); every context key is stored with the type every consumer asserts (no configuration accepted at construction can fail a type assertion at the first block); every codec name accepted at construction has a constructor case in every factory. Encode and decode tasks publish the same context keys (block size for the transform stage, post-transform size for the entropy stage) before creating their codecs.",
 		NotDecided: "byte equality of the round trip, codec correctness, buffer sizing, expansion bounds.",
 	},
 	"C02": {
@@ -36,13 +36,13 @@ var properties = map[string]*Property{
 		NotDecided: "independence from the partition into Write calls (index arithmetic in Writer.Write).",
 	},
 	"C05": {
-		Rules:      []string{"R-TOKEN", "R-OWN", "R-STALE", "R-ERRSTATE", "R-CANCEL"},
-		Decided:    "shared reads happen strictly under the token, none after release; per-task buffers/results are private and read by the parent only after Wait, in index order; the parent reads the buffer the task decoded into; no data from a failed batch is published.",
+		Rules:      []string{"R-TOKEN", "R-OWN", "R-STALE", "R-ERRSTATE", "R-CANCEL", "R-COMPACT", "R-BUF-FRESH"},
+		Decided:    "shared reads happen strictly under the token, none after release; per-task buffers/results are private and read by the parent only after Wait, in index order; the parent reads the buffer the task decoded into; no data from a failed batch is published. Decoded blocks are packed into consecutive buffer slots by a cursor that advances only for delivered blocks; buffer slots are only re-pointed to fresh allocations.",
 		NotDecided: "cursor arithmetic of Reader.Read (consumed/available/bufferThreshold).",
 	},
 	"C06": {
-		Rules:      []string{"R-REFILL"},
-		Decided:    "source-side clause only: the input bitstream refills its buffer completely (loop or io.ReadFull) so a partial 64-bit word can only occur at end of source, the invariant every bulk read path relies on.",
+		Rules:      []string{"R-REFILL", "R-READ-FULL"},
+		Decided:    "source-side clause only: the input bitstream refills its buffer completely (loop or io.ReadFull) so a partial 64-bit word can only occur at end of source, the invariant every bulk read path relies on. Reader.Read returns a short count without error only when the stream ended (the decompressor treats a short read as end of data); every exit of the refill loop is decided by bytes obtained vs requested or by an error.",
 		NotDecided: "Write/Read buffer-length independence (arithmetic); sink-side chunking.",
 	},
 	"C07": {
@@ -66,8 +66,8 @@ var properties = map[string]*Property{
 		NotDecided: "algorithmic changes that keep every constant; tables computed at init; encoder-only changes.",
 	},
 	"C11": {
-		Rules:      []string{"R-SKIP-ORDER", "R-SKIP-RANGE", "R-ERRSTATE"},
-		Decided:    "skipped blocks consume their bytes and pass the token before the range test, are never decoded nor delivered; block ids are compared with from/to as the half-open interval [from,to); all-skipped batches are refilled.",
+		Rules:      []string{"R-SKIP-ORDER", "R-SKIP-RANGE", "R-ERRSTATE", "R-COMPACT"},
+		Decided:    "skipped blocks consume their bytes and pass the token before the range test, are never decoded nor delivered; block ids are compared with from/to as the half-open interval [from,to); all-skipped batches are refilled. The slot cursor of the result compaction advances only for non-skipped blocks.",
 		NotDecided: "mapping of block k to byte offsets; cursor compaction arithmetic.",
 	},
 	"C12": {
@@ -86,8 +86,8 @@ var properties = map[string]*Property{
 		NotDecided: "value/position equality of writer and reader (bit arithmetic).",
 	},
 	"C15": {
-		Rules:      []string{"R-TABLES", "R-NAMECMP", "R-LEVELS"},
-		Decided:    "name->type->name is the identity on canonical names and upper-cases before lookup; every type maps to a constructor in every factory; no codec variant is selected by a case-sensitive comparison of the user's spelling.",
+		Rules:      []string{"R-TABLES", "R-NAMECMP", "R-LEVELS", "R-COMPACT"},
+		Decided:    "name->type->name is the identity on canonical names and upper-cases before lookup; every type maps to a constructor in every factory; no codec variant is selected by a case-sensitive comparison of the user's spelling. In GetType the slot of a token in the packed chain advances only for non-NONE tokens (NONE fillers are removed).",
 		NotDecided: "removal of NONE fillers (loop in GetType); stream byte equality.",
 	},
 	"C17": {
@@ -96,8 +96,8 @@ var properties = map[string]*Property{
 		NotDecided: "counters, returned lengths, call-history semantics.",
 	},
 	"C18": {
-		Rules:      []string{"R-GLOBAL-RO", "R-OWN", "R-HASH-PURE", "R-TOKEN", "R-BWT-WORKER"},
-		Decided:    "package-level state is written only during initialisation (including through aliases handed to instances); tasks of one instance share only classified state, each class with its obligation (atomic counter, pure hashers, token-guarded stream, per-task buffers); inverse-BWT workers store only through dst.",
+		Rules:      []string{"R-GLOBAL-RO", "R-OWN", "R-HASH-PURE", "R-TOKEN", "R-BWT-WORKER", "R-BUF-FRESH"},
+		Decided:    "package-level state is written only during initialisation (including through aliases handed to instances); tasks of one instance share only classified state, each class with its obligation (atomic counter, pure hashers, token-guarded stream, per-task buffers); inverse-BWT workers store only through dst. Buffer slots shared between a reader/writer and its tasks are only re-pointed to fresh allocations.",
 		NotDecided: "disjointness of dst ranges of BWT workers (arithmetic); user listeners.",
 	},
 	"C19": {
